@@ -98,6 +98,9 @@ type Field struct {
 	Tag     string // go.tag
 	Redact  bool
 	NoLog   bool
+	// non-strict programs only (compile.NonStrict()):
+	NoID        bool // written without a field identifier; ID holds the implicit (negative) one
+	ReqImplicit bool // an optional field written without `optional`
 }
 
 type LitKind int
@@ -140,6 +143,10 @@ type Func struct {
 	Ret    *Type // nil = void
 	Throws []*Field
 	Oneway bool
+	// Ann is an annotation on the function that the generator does not act on (go.name on a
+	// function is accepted and handed to plugins among the annotations, nothing else): it must change
+	// neither the generated names nor the names plugins are told.
+	Ann string
 }
 
 type Service struct {
@@ -163,6 +170,8 @@ type Program struct {
 	Files []*File // in dependency order: a file only includes earlier files
 	Root  *File
 	Seed  uint64
+	// NonStrict: the program is only accepted by compile.NonStrict() (see MakeNonStrict)
+	NonStrict bool
 }
 
 // CommonDir is the deepest common ancestor directory of all files ("" = the
